@@ -11,4 +11,5 @@ var (
 	ErrFieldNotPopulated  = errors.New("field is not populated")
 	ErrInsufficientLength = errors.New("insufficient length")
 	ErrInvalidSize        = errors.New("invalid size")
+	ErrTrailingBytes      = errors.New("trailing bytes")
 )
